@@ -9,6 +9,8 @@ CHECKS = {
              note="Window constant scaled to 4 except where stated; the DNS wire is cut out of the pair run (C09/C10); pair run bounded to k actions and <=3 faults; invariant is mine (DESIGN.md Appendix C) - a counterexample to induction is a violation of the step from an invariant state, reachability of that state is argued, not solved."),
  "C08": dict(text="Every path of Encode/Decode of each codec is executed symbolically over all 2^(8n) inputs of each length n within the bound; unsat of (path condition and not property) is the verdict. Bounded by input length; Base85 byte equality only for n<=1 (arithmetic kernel out of solver reach).",
              note="Outside: inputs longer than the bound (quick 8, thorough 16 bytes); Base85 round-trip bytes for n>=2."),
+ "C12": dict(text="Server: one-question messages in wire format with every byte value in the first label (length 0..2, tunnel and foreign domain, every qtype/qclass) and command templates with symbolic command letter, user-id characters and bodies go through miekg's real Msg.Unpack and the real onMessage; every Go run-time panic site, every allocation size and every loop bound is an assertion, and an established session of another address must stay unchanged. Client: answer sections of 0..2 records of each record type with arbitrary rdata go through Msg.Unpack and the real DecodeDnsResponseWithParams.",
+             note="Bounds in evidence.coverage.bounds; names with more than 2 unconstrained bytes only through templates; compression pointers inside rdata of name-carrying answers are left out; one handler at a time."),
  "C13": dict(text="All histories of k operations (handshakes from two addresses, data packets, client closes, server-side closes of any session object, time advances with a run of the real pruning goroutine) on the real ServerDnsListener from the empty table, plus all two-slot tables x one pruning run, plus one spoofed message of every id-carrying command with fully symbolic sequence numbers against a live session; a ghost model says which sessions must still be live.",
              note="Handlers run one at a time (no true concurrency); two client addresses; history length k<=4 quick / 5 thorough; responses captured as objects (wire = C10)."),
  "C19": dict(text="All wrapper compositions up to the depth bound and all call sequences up to the length bound are enumerated as symbolic choices over the real wrapper code with counting fakes underneath; complete within those bounds.",
